@@ -75,6 +75,7 @@ type smaWorld struct {
 	audited     []*retained // every message, as the wrapper around the state machine saw it arrive
 	hsc         <-chan diam.Conn
 	stallRun    bool // one CEA write of this run may stall while the other connection goes on
+	wt          bool // Server.WriteTimeout is set (one second)
 	many        bool // many peers on one state machine, each with a handshake and little else
 }
 
@@ -211,7 +212,8 @@ func newSmaWorld(e *Env, prop string) *smaWorld {
 	w.appCtx = t.Chance(1, 3)
 	srv := &diam.Server{Handler: smaAudit{w}}
 	if t.Chance(1, 3) {
-		srv.WriteTimeout = time.Second // (no fake time passes in this world: it never expires)
+		srv.WriteTimeout = time.Second // (fake time passes between deliveries, never during a write: it never expires)
+		w.wt = true
 		e.Probe("server-write-timeout-set")
 	}
 	go srv.Serve(w.lis)
@@ -425,6 +427,12 @@ func (w *smaWorld) genConn(i int, nItems int) *smaConn {
 		c.sc.MaxRead = t.Range(1, 50)
 	}
 	peerHost := fmt.Sprintf("peer%d.example", i)
+	if i > 0 && t.Chance(1, 3) {
+		// the same peer identity on a second connection (a reconnect, or a second link of one host):
+		// what this one negotiates is its own
+		peerHost = "peer0.example"
+		w.e.Probe("same-peer-identity-on-two-connections")
+	}
 	var lastCER *smaItem
 	usedDWR := map[[2]uint32]bool{}
 	for k := 0; k < nItems; k++ {
@@ -1037,6 +1045,11 @@ func smaRun(e *Env, prop string) {
 		}
 		if len(live) > 1 {
 			e.NonTrivial()
+		}
+		if w.wt && !w.stallRun && t.Chance(2, 3) {
+			// the peers take their time: each answer's write deadline counts from that answer
+			e.Quiesce()
+			e.Advance(time.Duration(t.Range(1, 4)) * 100 * time.Millisecond)
 		}
 		if !w.step(ci, k, t.Chance(1, 3)) {
 			return
